@@ -45,6 +45,15 @@ CLAIMED = {
              "strace syscall injection. Not modelled: faults at arbitrary instructions between phase boundaries (covered only by strace samples), allocation failure other than abort.",
         technique="Coq proof over an exhaustively enumerated finite fault model + trace validation of every model run against the real binary",
         design_ref="DESIGN.md §3 C17"),
+    "C08": dict(
+        text="S1 for .gnu.hash: theorem gnu_lookup_finds, for ALL lists of definitions sorted by bucket (any count, any names, any hash function, any bucket count > 0, symbol_base >= 1): "
+             "glibc's new-hash lookup (bloom test, bucket, chain walk with stop bit) over the tables write_gnu_hash_tables emits finds an entry with an equal name for every definition; "
+             "and no walk returns a different name. Proved by induction over the list (loop invariant for the bucket array, run lemma for the chain walk). "
+             ".hash (SysV): model + executable lookups validated on real tables, not proved (partial).",
+        note="Trusted: Coq kernel + vm_compute, no axioms; hand model of the two writers and of glibc do_lookup_x; tie = wild binary on generated shared objects (0..200 / 3000 names x 3 hash styles), "
+             "tables compared word for word with the model and every defined symbol looked up on the real tables; symbol versions (check_match version test) not modelled.",
+        technique="Coq proof by induction over symbol lists (loop invariants) + model/implementation correspondence on real output tables",
+        design_ref="DESIGN.md §3 C08"),
 }
 
 PENDING_REASON = "not claimed yet: model/theorems for this property are not built in this revision (see DESIGN.md §8 construction order)"
